@@ -23,6 +23,7 @@ fn main() {
         "visit" => visit::visit(&args[2..]),
         "visit-hex" => visit::visit_hex(&args[2]),
         "visit-cf" => visit::visit_cf(&args[2..]),
+        "visit-deep" => visit::visit_deep(&args[2..]),
         "entities" => entities::entities(&args[2..]),
         other => {
             eprintln!("unknown subcommand {other}");
